@@ -760,14 +760,14 @@ func (w *c12World) chanOf(operand string) (reflect.Value, bool) {
 	return v, false
 }
 
+// isTimerAlt: a receive from a channel that is neither the wheel's nor the queue's (timer.C, the
+// result of time.After kept in a local variable, …): the expiry of the pending timer.
 func (w *c12World) isTimerAlt(a c12Alt) bool {
 	if a.dir != "recv" {
 		return false
 	}
-	if _, ok := w.chanOf(a.ch); ok {
-		return false
-	}
-	return strings.HasSuffix(a.ch, ".C") || strings.Contains(a.ch, "After(") || strings.Contains(a.ch, "Tick(")
+	_, ok := w.chanOf(a.ch)
+	return !ok
 }
 
 // soloAlt: can this communication complete without another goroutine arriving?
@@ -1050,7 +1050,7 @@ func c12ParseTok(s string) (c12Tok, bool) {
 		return c12Tok{kind: "ku", i: v}, err == nil
 	case strings.HasPrefix(s, "kb"):
 		v, err := strconv.Atoi(s[2:])
-		return c12Tok{kind: "kb", c: v}, err == nil
+		return c12Tok{kind: "kb", c: v}, err == nil && v >= 1 && v <= 3
 	case strings.HasPrefix(s, "a"):
 		v, err := strconv.Atoi(s[1:])
 		return c12Tok{kind: "a", c: v}, err == nil
@@ -1527,7 +1527,7 @@ func (w *c12World) candidates(r *vh.Rng, lazyTick bool) []c12Tok {
 			c = append(c, c12Tok{kind: "kb", c: 1 + r.Intn(3)})
 		}
 	} else if r.Chance(3) {
-		c = append(c, c12Tok{kind: "kb", c: r.Intn(5)})
+		c = append(c, c12Tok{kind: "kb", c: 1 + r.Intn(3)})
 	}
 	if r.Chance(12) {
 		c = append(c, c12Tok{kind: "a", c: 1 + r.Intn(4)})
